@@ -450,6 +450,7 @@ def doc_check(spec, g):
     term_names = ["STOP"] + [t.name for t in terms]
     # O3..O6 alternatives
     use_helper = {}        # (base, kind, sep) -> helper nonterminal name in the dump
+    helper_nts = set()     # names of all helper nonterminals met (the inner one-or-more of `*` included)
     pos_in_nt = {}
     for r in rules:
         if r.name not in nt_by_name:
@@ -500,7 +501,10 @@ def doc_check(spec, g):
                 if kind != "N":
                     fail("helper-shape", f"rule {r.name} alternative {k}: sugar resolves to {kind}:{name}")
                     continue
-                why = helper_shape(g, s, base, op, sep, term_names)
+                inner = []
+                why = helper_shape(g, s, base, op, sep, term_names, inner)
+                helper_nts.update(inner)
+                helper_nts.add(name)
                 if why:
                     fail("helper-shape", f"rule {r.name} alternative {k}: {text_ref(a.ref)} -> {name}: {why}")
                 if name in rule_names:
@@ -530,15 +534,16 @@ def doc_check(spec, g):
         if any(s == g["empty"] for (s, _, _) in p["rhs"]):
             fail("empty", f"production {p['idx']} contains the EMPTY symbol")
     # nothing but AUG, AUGL, EMPTY, rules and helpers
-    allowed = {"EMPTY", "AUG", "AUGL"} | set(rule_names) | set(use_helper.values())
+    allowed = {"EMPTY", "AUG", "AUGL"} | set(rule_names) | helper_nts
     for n in g["nonterms"]:
-        if n["name"] not in allowed and not n["name"].endswith("1"):
+        if n["name"] not in allowed:
             fail("alternatives", f"unexpected nonterminal {n['name']}")
     return bad
 
 
-def helper_shape(g, s, base, op, sep, term_names):
-    """is symbol s a nonterminal whose productions are the documented expansion of base op [sep]?"""
+def helper_shape(g, s, base, op, sep, term_names, inner_out=None):
+    """is symbol s a nonterminal whose productions are the documented expansion of base op [sep]?
+    (names of inner helper nonterminals are appended to inner_out)"""
     n = g["nonterms"][s - g["nterms"]]
     rhss = [[x for (x, _, _) in g["prods"][p]["rhs"]] for p in n["prods"]]
     plain = all(g["prods"][p]["prio"] == 10 and g["prods"][p]["assoc"] == "N" and not g["prods"][p]["meta"]
@@ -570,6 +575,8 @@ def helper_shape(g, s, base, op, sep, term_names):
         if n["annotation"] != "vec":
             return "zero-or-more helper is not @vec"
         if len(rhss) == 2 and len(rhss[0]) == 1 and rhss[1] == [] and g["nterms"] <= rhss[0][0]:
+            if inner_out is not None:
+                inner_out.append(sym_name(g, rhss[0][0])[1])
             inner = helper_shape(g, rhss[0][0], base, "+", sep, term_names)
             return None if inner is None else "inner one-or-more: " + inner
         return f"productions {rhss} are not `X1 | EMPTY`"
